@@ -147,6 +147,39 @@ def gen_sigs():
     o.append(",\n".join(rows))
     o.append("]")
     o.append("")
+    # static result types: `const Type& type(Context& ctx) const override { return Value::type_X; }` in the header
+    tymap = {"type_boolean": ".bool", "type_integer": ".int", "type_numeric": ".num", "type_literal": ".str", "type_tabchar": ".raw",
+             "type_imaginary": ".imag", "type_no_type": ".none", "type_complex": ".obj", "type_rowtype": ".tup"}
+    trows = []
+    for kw in kws:
+        rel = "blocc/builtin/builtin_%s.h" % files.get(kw, kw)
+        try:
+            h = strip_comments(rd(rel))
+        except ExtractError:
+            continue
+        m = re.search(r"const\s+Type\s*&\s*type\s*\(\s*Context\s*&\s*ctx\s*\)\s*const\s*override\s*(\{[^}]*\}|;)", h)
+        if not m:
+            raise ExtractError("%s: type() declaration not found" % rel)
+        body = m.group(1)
+        mc = re.search(r"return\s+Value::(type_\w+)\s*;", body)
+        if mc and mc.group(1) in tymap:
+            trows.append('  ("%s", .const %s)' % (kw, tymap[mc.group(1)]))
+        elif re.search(r"return\s+_args\[0\]->type\(ctx\)\s*;", body):
+            trows.append('  ("%s", .arg0)' % kw)
+        else:
+            trows.append('  ("%s", .custom)' % kw)
+    o.append("/-- Static result type of a built-in as written in its header: a constant type, the type of its")
+    o.append("first argument, or computed by code (`custom`: transcribed by hand in the model). -/")
+    o.append("inductive RetSpec")
+    o.append("  | const (m : Major)")
+    o.append("  | arg0")
+    o.append("  | custom")
+    o.append("  deriving Repr")
+    o.append("")
+    o.append("def builtinTypes : List (String × RetSpec) := [")
+    o.append(",\n".join(trows))
+    o.append("]")
+    o.append("")
     o.append("def builtinHand : List String := [" + ", ".join('"%s"' % h for h in hand) + "]")
     o.append("")
     o.append("end BlocV.Gen")
